@@ -91,7 +91,11 @@ def _easy_pred(draw):
     return ['count', ['path', 0, [['/', 'child', ['any'], [], 1]]], draw(st.sampled_from(['>=', '>=', '<', '='])), draw(st.integers(0, 1))]
 
 
-_positional = st.one_of(st.sampled_from([['num', 1], ['num', 1], ['num', 2], ['last'], ['lastminus', 1]]),
+# predicates whose value is a number but not an integer-typed one: still position tests (2.0, 1.5, 4 div 2, last() div 2, last() - 1.0)
+_numeric = st.sampled_from([['dec', '1.0'], ['dec', '2.0'], ['dec', '2.0'], ['dec', '3.0'], ['dec', '1.5'], ['dec', '0.5'], ['div', 4, 2],
+                            ['div', 2, 2], ['div', 3, 2], ['div', 6, 2], ['lastdiv', 1], ['lastdiv', 2], ['lastdiv', 2], ['lastdiv', 3],
+                            ['lastminusdec', '1.0'], ['lastminusdec', '0.0'], ['lastminusdec', '0.5'], ['lastminusdec', '2.0']])
+_positional = st.one_of(st.sampled_from([['num', 1], ['num', 1], ['num', 2], ['last'], ['lastminus', 1]]), _numeric,
                         st.tuples(st.just('pos'), st.sampled_from(_OPS), st.integers(1, 3)).map(list))
 
 
@@ -126,7 +130,9 @@ def _operand(draw, depth):
 
 @st.composite
 def _pred(draw, depth):
-    k = draw(st.integers(0, 19))
+    k = draw(st.integers(0, 22))
+    if k >= 20:
+        return draw(_numeric)
     if k < 5:
         return ['num', draw(st.sampled_from([1, 1, 1, 2, 2, 3]))]
     if k < 8:
@@ -184,9 +190,52 @@ def ns_axis_path(draw):
     return ['path', 2, [['/', 'child', ['any'], [pred], 1]]]
 
 
+_LEAVING = ('parent', 'parent', 'ancestor', 'ancestor-or-self', 'following-sibling', 'following-sibling', 'preceding-sibling',
+            'preceding-sibling', 'following', 'preceding')
+
+
+@st.composite
+def leaving_path(draw):
+    """a relative path that LEAVES the context node through a non-self axis (.., parent::*, ancestor::*, siblings,
+    following, preceding), optionally going on: meant for context items of every kind, comments and PIs in particular"""
+    axis = draw(st.sampled_from(_LEAVING))
+    if axis == 'parent' and draw(st.booleans()):
+        first = ['/', 'parent', ['node'], [], 1]                      # ..
+    else:
+        first = ['/', axis, draw(st.sampled_from([['any'], ['any'], ['node'], ['node'], ['name', None, 'a'], ['text'], ['comment']])),
+                 [draw(_positional)] if draw(st.integers(0, 3)) == 0 else [], 0]
+    rest = [draw(_step(0, True)) for _ in range(draw(st.sampled_from([0, 0, 1, 1, 2])))]
+    return ['path', 0, [first] + rest]
+
+
+_ABS_OPERANDS = [['path', 2, [['/', 'child', t, [], 1]]] for t in (['any'], ['name', None, 'a'], ['name', None, 'b'], ['node'], ['text'])] + \
+    [['path', 1, [['/', 'child', ['any'], [], 1]]], ['path', 2, [['/', 'attribute', ['any'], [], 1]]],
+     ['path', 1, [['/', 'child', ['any'], [], 1], ['/', 'child', ['any'], [], 1]]]]
+_REL_OPERANDS = [['path', 0, [['/', 'child', t, [], 1]]] for t in (['any'], ['name', None, 'a'], ['name', None, 'b'], ['node'], ['text'])] + \
+    [['path', 0, [['/', 'parent', ['node'], [], 1]]], ['path', 0, [['/', 'attribute', ['any'], [], 1]]],
+     ['path', 0, [['/', 'self', ['node'], [], 1]]], ['path', 0, [['/', 'following-sibling', ['any'], [], 0]]]]
+
+
+@st.composite
+def abs_rel_union(draw):
+    """(ABSOLUTE | RELATIVE): the operands are evaluated independently, each from the context node"""
+    a, r = draw(st.sampled_from(_ABS_OPERANDS)), draw(st.sampled_from(_REL_OPERANDS))
+    u = ['union', [a, r] if draw(st.integers(0, 3)) else [r, a]]
+    k = draw(st.integers(0, 3))
+    if k == 0:
+        return u
+    preds = [draw(_positional)] if k == 3 else []
+    steps = draw(st.sampled_from([[], [], [['/', 'child', ['node'], [], 1]], [['/', 'parent', ['node'], [], 1]], [['/', 'attribute', ['any'], [], 1]]]))
+    return ['fpath', u, preds, steps]
+
+
 @st.composite
 def path_asts(draw, max_steps=4):
-    k = draw(st.integers(0, 29))
+    k = draw(st.integers(0, 33))
+    if k >= 32:
+        return draw(abs_rel_union())
+    if k >= 30:
+        return draw(leaving_path())
     if k >= 28:
         return draw(ns_axis_path())
     if k < 15:
